@@ -119,6 +119,7 @@ type Engine struct {
 	curFrame    *frame
 	paramSyms   []paramSym
 	rootPre     *State
+	bitsSyms    map[string]string // float parameter term -> symbol holding its bit pattern (math.Float32bits)
 }
 
 type predDef struct {
